@@ -133,9 +133,9 @@ CLAIMS.update({
          'nothing was lost and nothing is left buffered. Real tail of abidw\'s load_corpus_and_write_abixml and real abilint '
          'main, against that callee contract: exit status 0 implies nothing lost and nothing pending, for every pattern of '
          'buffering and failure, --out-file and stdout.',
-         'Assumes iostream reports a failed write in good()/fail(). write_corpus_group, write_translation_unit and the kernel '
-         'corpus-group branch of abidw are callee assumptions / not covered; a failure of the final implicit close of stdout is '
-         'outside the model.', '5 C36'),
+         'Assumes iostream reports a failed write in good()/fail(). write_corpus_group and the kernel corpus-group clause of abidw '
+         'are under contract too; write_translation_unit is a callee assumption; a failure of an implicit close (destructor, '
+         'exit) is outside the model.', '5 C36'),
  'C41': ('other',
          'BOUNDED (never counted as proved): the real string_begins_with, string_ends_with, string_suffix, trim_leading_string, '
          'split_string and decl_names_equal on every pair of strings of <= 5 bytes (all byte values): equal to their '
